@@ -59,8 +59,10 @@ export function resolvePath(root, path) {
         continue;
       }
       if (cur !== null && (typeof cur === "object" || typeof cur === "function")) {
-        // ordinary property read (an inherited member is what the validator itself sees for names like "constructor")
+        // ordinary property read; a name the value only inherits from Object.prototype ("constructor", "toString")
+        // is absent in the JSON reading (what the validator reports) and a function in the JavaScript reading
         next.push(seg in cur ? cur[seg] : MISSING);
+        if (seg in Object.prototype && !Object.prototype.hasOwnProperty.call(cur, seg)) next.push(MISSING);
         // a key of an index signature that fails its key type is reported with the key itself as "received"
         if (i === path.length - 1 && Object.prototype.hasOwnProperty.call(cur, seg) && !Array.isArray(cur)) next.push(KEY(seg));
         continue;
